@@ -44,6 +44,15 @@ def has_type(toks, names):
     return False
 
 
+def walk_all(toks):
+    for t in toks:
+        if isinstance(t, dict):
+            yield t
+            ch = t.get("children")
+            if isinstance(ch, list):
+                yield from walk_all(ch)
+
+
 def tree_tie(ctx, docs, cfgs, exempt=("block_error",)):
     d = common.Driver()
     reqs, meta = [], []
@@ -87,6 +96,13 @@ def tree_tie(ctx, docs, cfgs, exempt=("block_error",)):
             if sum(1 for b in ctx.broken if b.startswith("template tree tie")) < 4:
                 ctx.broken.append("template tree tie: model renders %r, implementation %r for %r under %s" % (g[:160], html[:160], doc[:120], c["name"]))
             continue
+        # hypothesis of `rendered_url_not_script` (C02Url): every destination that reaches safe_url is made of the characters 33..126
+        # (the parser passed it through escape_url) — then safe_url's prefix test and a browser's reading of the scheme coincide
+        bad_url = [(t.get("type"), k, v) for t in walk_all(toks) for k, v in (t.get("attrs") or {}).items()
+                   if k in ("url", "src", "target") and isinstance(v, str) and any(not (33 <= ord(ch) < 127) for ch in v)]
+        stats["url_fields_checked"] = stats.get("url_fields_checked", 0) + sum(1 for t in walk_all(toks) for k, v in (t.get("attrs") or {}).items() if k in ("url", "src", "target") and isinstance(v, str))
+        if bad_url and sum(1 for b in ctx.broken if b.startswith("url-alphabet")) < 3:
+            ctx.broken.append("url-alphabet: a destination outside the characters 33..126 reaches the renderer (hypothesis of rendered_url_not_script fails): %r for %r under %s" % (bad_url[0], doc[:120], c["name"]))
         if ex:
             stats["exempt"] += 1
             continue
